@@ -253,6 +253,19 @@ class Vec:
         return f"Vec{self.items}"
 
 
+def _has_mul(t):
+    if not is_z3(t):
+        return False
+    t = z3.simplify(t)
+    todo = [t]
+    while todo:
+        x = todo.pop()
+        if z3.is_mul(x) and sum(1 for c in x.children() if not z3.is_int_value(c) and not z3.is_rational_value(c)) >= 2:
+            return True
+        todo.extend(x.children())
+    return False
+
+
 class NDArray:
     """numpy ndarray of concrete rank, symbolic extents, elements given by a function of the index tuple.
 
@@ -301,7 +314,9 @@ class NDArray:
 
     def size(self):
         r = zprod(self.shape)
-        if _DEFINER[0] is not None and is_z3(r):
+        if _DEFINER[0] is not None and is_z3(r) and not any(_has_mul(x) for x in self.shape):
+            # (extents that are themselves products - replication factors - stay in the open: naming them hides the
+            #  structure the div/mod reasoning needs)
             return _DEFINER[0](r, "size")
         return r
 
